@@ -1,6 +1,14 @@
 /-!
-Model of parser/lexer.go (pinned commit, unrepaired).  Input and token values are byte
-lists (`Nat` < 256); runes are code points.  Follows the Go code function by function.
+Model of parser/lexer.go as it is in /repo now (after `fix:` 02ff58e: the closing quote of a
+string is found with an `escaped` flag, not by looking at the previous rune).  Input and token
+values are byte lists (`Nat` < 256); runes are code points.  Follows the Go code function by
+function.
+
+Position bookkeeping (property C18) is confined to three small functions which every lexing
+function below calls and which `Ecal.Props.C18` is about:
+`L.track` (the `if r == '\n' { line++; lastnl = l.pos }` of skipWhiteSpace / lexValue / the block
+comment), `L.hashEnd` (the bare `l.line++` after a `#` comment) and `L.stamp` (the line / column
+written into a token by emitToken / emitTokenAndValue / emitError).
 -/
 namespace Ecal.Lex
 
@@ -79,8 +87,17 @@ def keywordTable : List (String × Nat) :=
    ("elif",64),("else",65),("for",66),("break",67),("continue",68),("try",69),("except",70),
    ("otherwise",71),("finally",72),("mutex",73)]
 
-def lookupTab (tab : List (String × Nat)) (k : List Nat) : Option Nat :=
-  (tab.find? fun p => str p.1 == k).map (·.2)
+/-- the same tables keyed by the UTF-8 bytes of the text (so that look-ups reduce inside the
+    kernel: `String.toUTF8` does not); checked against the readable tables at build time -/
+def symbolBytes : List (List Nat × Nat) :=
+  [([62, 61], 16), ([60, 61], 17), ([33, 61], 18), ([61, 61], 19), ([62], 20), ([60], 21), ([40], 22), ([41], 23), ([91], 24), ([93], 25), ([123], 26), ([125], 27), ([46], 28), ([44], 29), ([59], 30), ([58], 31), ([61], 32), ([43], 33), ([45], 34), ([42], 35), ([47], 36), ([47, 47], 37), ([37], 38), ([58, 61], 39)]
+def keywordBytes : List (List Nat × Nat) :=
+  [([108, 101, 116], 40), ([105, 109, 112, 111, 114, 116], 42), ([97, 115], 43), ([115, 105, 110, 107], 44), ([107, 105, 110, 100, 109, 97, 116, 99, 104], 45), ([115, 99, 111, 112, 101, 109, 97, 116, 99, 104], 46), ([115, 116, 97, 116, 101, 109, 97, 116, 99, 104], 47), ([112, 114, 105, 111, 114, 105, 116, 121], 48), ([115, 117, 112, 112, 114, 101, 115, 115, 101, 115], 49), ([102, 117, 110, 99], 50), ([114, 101, 116, 117, 114, 110], 51), ([97, 110, 100], 52), ([111, 114], 53), ([110, 111, 116], 54), ([108, 105, 107, 101], 55), ([105, 110], 56), ([104, 97, 115, 112, 114, 101, 102, 105, 120], 57), ([104, 97, 115, 115, 117, 102, 102, 105, 120], 58), ([110, 111, 116, 105, 110], 59), ([102, 97, 108, 115, 101], 60), ([116, 114, 117, 101], 61), ([110, 117, 108, 108], 62), ([105, 102], 63), ([101, 108, 105, 102], 64), ([101, 108, 115, 101], 65), ([102, 111, 114], 66), ([98, 114, 101, 97, 107], 67), ([99, 111, 110, 116, 105, 110, 117, 101], 68), ([116, 114, 121], 69), ([101, 120, 99, 101, 112, 116], 70), ([111, 116, 104, 101, 114, 119, 105, 115, 101], 71), ([102, 105, 110, 97, 108, 108, 121], 72), ([109, 117, 116, 101, 120], 73)]
+#guard symbolTable.map (fun p => (str p.1, p.2)) == symbolBytes
+#guard keywordTable.map (fun p => (str p.1, p.2)) == keywordBytes
+
+def lookupTab (tab : List (List Nat × Nat)) (k : List Nat) : Option Nat :=
+  (tab.find? fun p => p.1 == k).map (·.2)
 
 def lowerByte (c : Nat) : Nat := if 65 ≤ c && c ≤ 90 then c + 32 else c
 def lowerAscii (l : List Nat) : List Nat := l.map lowerByte
@@ -115,8 +132,26 @@ def L.peek (l : L) (n : Nat) : Option Nat :=
 
 def L.backup (l : L) (w : Nat) : L := { l with pos := l.pos - (if w = 0 then l.width else w) }
 
+/-- the bookkeeping step after rune `r` has been read (so `l.pos` is the offset after it):
+    `if r == '\n' { line++; lastnl = l.pos }` — skipWhiteSpace, lexValue, block comment.
+    (lexValue and the block comment keep the pair in locals `lLine/lLastnl` until the token is
+    emitted; `trackPair` is the same step on such a pair.) -/
+def trackPair (r : Option Nat) (posAfter : Nat) (p : Nat × Nat) : Nat × Nat :=
+  if r = some 10 then (p.1 + 1, posAfter) else p
+
+def L.track (l : L) (r : Option Nat) : L :=
+  let p := trackPair r l.pos (l.line, l.lastnl)
+  { l with line := p.1, lastnl := p.2 }
+
+/-- what the `#` branch of lexComment does after the terminating newline: `l.line++` only -/
+def L.hashEnd (l : L) : L := { l with line := l.line + 1 }
+
+/-- line and column written into a token that starts at `l.start`:
+    `l.line + 1, l.start - l.lastnl + 1` -/
+def L.stamp (l : L) : Nat × Int := (l.line + 1, (l.start : Int) - (l.lastnl : Int) + 1)
+
 def L.emit (l : L) (id : Nat) (val : List Nat) (ident ae : Bool) : L :=
-  let t : Tok := Tok.mk id l.start val ident ae l.skippedNl (l.line + 1) ((l.start : Int) - (l.lastnl : Int) + 1)
+  let t : Tok := Tok.mk id l.start val ident ae l.skippedNl l.stamp.1 l.stamp.2
   { l with toks := l.toks.push t }
 
 def L.emitToken (l : L) (id : Nat) : L :=
@@ -136,7 +171,7 @@ def skipWhiteSpace (l : L) : L × Bool :=
     | 0 => (l, false)
     | fuel+1 =>
       if blank r then
-        let l := if r = some 10 then { l with line := l.line + 1, skippedNl := l.skippedNl + 1, lastnl := l.pos } else l
+        let l := if r = some 10 then { l.track r with skippedNl := l.skippedNl + 1 } else l
         let (l, r) := l.next
         if r = none then (l.emitToken tEOF, false) else loop fuel l r
       else (l.backup 0, true)
@@ -169,7 +204,7 @@ def lexNumberBlock (l : L) : L :=
   let (l, r) := loop (l.inp.size + 2) l r
   if r != none then l.backup 0 else l
 
-def isSym (k : List Nat) : Bool := (lookupTab symbolTable k).isSome
+def isSym (k : List Nat) : Bool := (lookupTab symbolBytes k).isSome
 
 def lexTextBlock (l : L) : L :=
   let (l, r) := l.next
@@ -285,17 +320,19 @@ def lexValue (l : L) : L × Next :=
   let (l, ae, endTok) :=
     if r = some 114 && (q = some 34 || q = some 39) then ((l.next).1, false, q) else (l, true, r)
   let (l, r) := l.next
-  let rec loop (fuel : Nat) (l : L) (r rprev : Option Nat) (lLine lLastnl : Nat) : Option (L × Nat × Nat) :=
+  let rec loop (fuel : Nat) (l : L) (r : Option Nat) (escaped : Bool) (lLine lLastnl : Nat) : Option (L × Nat × Nat) :=
     match fuel with
     | 0 => none
     | fuel+1 =>
-      if (!ae && r != endTok) || (ae && (r != endTok || rprev = some 92)) then
-        let (lLine, lLastnl) := if r = some 10 then (lLine + 1, l.pos) else (lLine, lLastnl)
+      if (!ae && r != endTok) || (ae && (r != endTok || escaped)) then
+        let (lLine, lLastnl) := trackPair r l.pos (lLine, lLastnl)
+        -- a backslash escapes the next character unless it is escaped itself
+        let escaped := !escaped && r = some 92
         let (l', r') := l.next
         if r' = none then none   -- error: unexpected end (position info taken from l below)
-        else loop fuel l' r' r lLine lLastnl
+        else loop fuel l' r' escaped lLine lLastnl
       else some (l, lLine, lLastnl)
-  match loop (l.inp.size + 2) l r (some 32) l.line l.lastnl with
+  match loop (l.inp.size + 2) l r false l.line l.lastnl with
   | none =>
     -- the Go code has consumed up to EOF; only the emitted error matters
     ({ l with pos := l.inp.size }.emitError "Unexpected end while reading string value (unclosed quotes)", Next.stop)
@@ -319,7 +356,7 @@ def lexComment (l : L) : L × Next :=
       | fuel+1 => if r != some 10 && r != none then let (l, r) := l.next; loop fuel l r else (l, r)
     let (l, r) := loop (l.inp.size + 2) l r
     let l := l.emit tPOSTCOMMENT (l.slice l.start l.pos) false false
-    if r = none then (l, Next.stop) else ({ l with line := l.line + 1 }, Next.token)
+    if r = none then (l, Next.stop) else (l.hashEnd, Next.token)
   else
     let (l, _) := l.next
     let lLine := l.line
@@ -331,7 +368,7 @@ def lexComment (l : L) : L × Next :=
       | 0 => none
       | fuel+1 =>
         if r != some 42 || l.peek 1 != some 47 then
-          let (lLine, lLastnl) := if r = some 10 then (lLine + 1, l.pos) else (lLine, lLastnl)
+          let (lLine, lLastnl) := trackPair r l.pos (lLine, lLastnl)
           let (l', r') := l.next
           if r' = none then none else loop2 fuel l' r' lLine lLastnl
         else some (l, lLine, lLastnl)
@@ -367,7 +404,7 @@ def lexToken (l : L) : L × Next :=
       let l := lexTextBlock l
       let ic := l.slice l.start l.pos
       let kc := lowerAscii ic
-      match (lookupTab keywordTable kc).orElse (fun _ => lookupTab symbolTable kc) with
+      match (lookupTab keywordBytes kc).orElse (fun _ => lookupTab symbolBytes kc) with
       | some t => (l.emitToken t, Next.token)
       | none =>
         if !namePattern kc then (l.emitError "Cannot parse identifier", Next.stop)
